@@ -17,7 +17,7 @@ import (
 func init() {
 	register(&Prop{
 		ID: "C12", Level: "exploration",
-		Rule: "one case = 1-3 client tasks and an optional writer task under the seeded scheduler; every request carries a unique token in every observable field (parameter values, path, query string, request header, host label) and its handler derives response header, status and body length from the token; request shapes are drawn from direct match, ignored trailing slash (parameters come from the slash-adjusted copy), redirect, 404/405/OPTIONS handlers, manual Lookup with and without Close, CloneWith and Clone, a handler that hijacks its connection; iterator sequences (Iter.Reverse/Routes/Prefix) obtained earlier by the task and ranged again inside a later handler or while a Lookup context is held (must yield what they yielded first and leave the request's context alone); handlers yield so that other requests start, finish and recycle contexts in between, and the writer task replaces the tree between requests (contexts are pooled per tree version). Oracle inside every handler, before and after each yield: every Context getter shows the current request's token and nothing of another request; writer status/size/written start clean; route, pattern, scope as the reference dispatcher says. A Clone taken in request A (before or after the response was written; in the latter case the live request's URL and headers are then rewritten in place) is re-inspected after every later request of its task and at the end: identical to its first fingerprint and free of any other token (including response headers). Non-trivial: a context was re-observed after another task ran, or a clone was re-inspected after a later request; distinct = hash of (programs, schedule).",
+		Rule: "one case = 1-3 client tasks and an optional writer task under the seeded scheduler; every request carries a unique token in every observable field (parameter values, path, query string, request header, host label) and its handler derives response header, status and body length from the token; request shapes are drawn from direct match, ignored trailing slash (parameters come from the slash-adjusted copy), redirect, 404/405/OPTIONS handlers, manual Lookup with and without Close, CloneWith and Clone, a handler that hijacks its connection; iterator sequences (Iter.Reverse/Routes/Prefix) obtained earlier by the task and ranged again inside a later handler or while a Lookup context is held (must yield what they yielded first and leave the request's context alone); handlers yield so that other requests start, finish and recycle contexts in between, and the writer task replaces the tree between requests (contexts are pooled per tree version). Oracle inside every handler, before and after each yield: every Context getter shows the current request's token and nothing of another request; writer status/size/written start clean; route, pattern, scope as the reference dispatcher says. A Clone taken in request A (before or after the response was written; in the latter case the live request's URL and headers are then rewritten in place) is re-inspected after every later request of its task and at the end: identical to its first fingerprint and free of any other token (including response headers). Route handlers answer through WriteHeader+Write, Context.String, Blob or Stream (drawn) on connections that fail after 0-4 body bytes now and then, and read Status/Size/Written back: they must account for this response only, and the connection must hold exactly the accepted bytes. Non-trivial: a context was re-observed after another task ran, or a clone was re-inspected after a later request; distinct = hash of (programs, schedule).",
 		Run:  runC12, Quick: 64000, Thorough: 9600000,
 		Real:   []string{"request Context and its reset variants", "sync.Pool recycling per tree version (deterministic: GOMAXPROCS=1, GC off during a run)", "Clone/CloneWith", "ServeHTTP dispatch", "recorder ResponseWriter"},
 		Stub:   commonStub,
@@ -86,6 +86,14 @@ type c12Clone struct {
 	tok   string
 	first string
 	seen  int
+}
+
+// accepted is the number of body bytes a connection failing after failAt bytes (-1: never) takes out of n.
+func accepted(failAt, n int) int {
+	if failAt >= 0 && failAt < n {
+		return failAt
+	}
+	return n
 }
 
 func runC12(src sim.Source, o Opts) *Result {
@@ -177,13 +185,15 @@ func runC12(src sim.Source, o Opts) *Result {
 		CW        bool // any shape: the handler (route or special) also takes a CloneWith copy, as a writer-wrapping middleware would
 		CWSame    bool // ... with the writer and request the context already carries
 		NoQuery bool // the request has no query string; its handler writes a value of its own into QueryParams()
+		Via     int  // how a route handler answers: 0 WriteHeader+Write, 1 Context.String, 2 Context.Blob, 3 Context.Stream
+		FailAt  int  // the connection accepts this many body bytes and then fails (-1: never)
 		Var     int  // generated routes: which parameters take a value that is also a static text (drives backtracking)
 	}
 	nclients := 1 + src.Intn("clients", 3)
 	plans := make([][]reqPlan, nclients)
 	for c := range plans {
 		for i, n := 0, 2+src.Intn("nreq", 6); i < n; i++ {
-			plans[c] = append(plans[c], reqPlan{Shape: sim.Pick(src, "shape", shapes), Route: src.Intn("route", len(routes)), Yields: src.Intn("yields", 3), Rerange: src.Intn("rerange", 3) == 0, NoQuery: src.Intn("noquery", 4) == 0, CloneLate: sim.Bool(src, "clonelate"), MutReq: sim.Bool(src, "mutreq"), CW: src.Intn("alsoclonewith", 4) == 3, CWSame: src.Intn("clonewithsame", 3) == 2, Var: sim.Pick(src, "pvar", []int{0, 0, 1, 2, 3, 5, 6, 7})})
+			plans[c] = append(plans[c], reqPlan{Shape: sim.Pick(src, "shape", shapes), Route: src.Intn("route", len(routes)), Yields: src.Intn("yields", 3), Rerange: src.Intn("rerange", 3) == 0, NoQuery: src.Intn("noquery", 4) == 0, CloneLate: sim.Bool(src, "clonelate"), MutReq: sim.Bool(src, "mutreq"), CW: src.Intn("alsoclonewith", 4) == 3, CWSame: src.Intn("clonewithsame", 3) == 2, Var: sim.Pick(src, "pvar", []int{0, 0, 1, 2, 3, 5, 6, 7}), Via: sim.Pick(src, "answervia", []int{0, 0, 1, 2, 3}), FailAt: sim.Pick(src, "connfailsat", []int{-1, -1, -1, 0, 1, 2, 4})})
 		}
 	}
 	withWriter := src.Intn("writer", 2) == 1
@@ -400,8 +410,23 @@ func runC12(src sim.Source, o Opts) *Result {
 						return
 					}
 					if sv.Kind == model.KRoute {
-						c.Writer().WriteHeader(status)
-						_, _ = c.Writer().Write([]byte(strings.Repeat("b", bodyLen)))
+						body := strings.Repeat("b", bodyLen)
+						switch pl.Via {
+						case 1:
+							_ = c.String(status, "%s", body)
+						case 2:
+							_ = c.Blob(status, "text/plain", []byte(body))
+						case 3:
+							_ = c.Stream(status, "text/plain", strings.NewReader(body))
+						default:
+							c.Writer().WriteHeader(status)
+							_, _ = c.Writer().Write([]byte(body))
+						}
+						// what the handler reads back from its writer is this response's own account, whatever earlier
+						// responses (failed ones included) went through the helpers
+						if acc := accepted(pl.FailAt, bodyLen); c.Writer().Status() != status || c.Writer().Size() != acc || !c.Writer().Written() {
+							fail("request %s: after answering %d with %d body byte(s) (connection accepts %d) the writer reports status=%d size=%d written=%v", tok, status, bodyLen, pl.FailAt, c.Writer().Status(), c.Writer().Size(), c.Writer().Written())
+						}
 					}
 				}
 				switch pl.Shape {
@@ -466,6 +491,9 @@ func runC12(src sim.Source, o Opts) *Result {
 					req := world.NewRequest(method, host, path, "", rawQuery, log)
 					req.Header.Set("X-Token", tok)
 					conn := world.NewConn()
+					if pl.Shape != "hijack" && !(pl.Shape == "clone" && pl.CloneLate) {
+						conn.FailAfter = pl.FailAt
+					}
 					if pl.Shape == "hijack" {
 						w.R.ServeHTTP(conn.Wrap(world.NormCaps(world.Caps{Hijacker: true})), req)
 						checkClones(fmt.Sprintf("after request %s", tok))
@@ -484,8 +512,9 @@ func runC12(src sim.Source, o Opts) *Result {
 						fail("request %s (%s %s%s): answered by %s, expected %s", tok, method, host, path, last, wantKind)
 					}
 					if sv.Kind == model.KRoute && fails[ci] == "" {
-						if conn.Explicit != status || len(conn.Body) != bodyLen || conn.H.Get("X-Resp") != tok {
-							fail("request %s: response status=%d body=%d X-Resp=%s, expected %d/%d/%s", tok, conn.Explicit, len(conn.Body), conn.H.Get("X-Resp"), status, bodyLen, tok)
+						wantBody := strings.Repeat("b", accepted(conn.FailAfter, bodyLen))
+						if conn.Explicit != status || string(conn.Body) != wantBody || conn.H.Get("X-Resp") != tok {
+							fail("request %s: response status=%d body=%q X-Resp=%s, expected %d/%q/%s", tok, conn.Explicit, conn.Body, conn.H.Get("X-Resp"), status, wantBody, tok)
 						}
 					}
 				}
